@@ -18,18 +18,42 @@ import (
 	"verif/harness/internal/vrun"
 )
 
-const traceCfg = `SPECIFICATION TraceSpec
+const traceCfgFmt = `SPECIFICATION TraceSpec
 CONSTANTS
   Senders <- TraceSenders
   Cap = 50
   Timers = FALSE
   MaxPings = 0
   Scenarios = {}
-  FixEarly = FALSE
+  FixEarly = %s
   FixStall = TRUE
-  FixLatePut = FALSE
+  FixLatePut = %s
   Diag = %s
 `
+
+// Which repairs the tree under test contains (Peer.tla: Fix* constants).
+// FixStall: btcd 7c169cbd.  The other two are recorded, unrepaired defects of
+// the current tree; VERIF_PEER_TREE_FIX=early,lateput (development switch)
+// checks a worktree that carries candidate patches for them.
+var (
+	treeFixEarly   = false
+	treeFixLatePut = false
+)
+
+func init() {
+	for _, f := range strings.Split(os.Getenv("VERIF_PEER_TREE_FIX"), ",") {
+		switch strings.TrimSpace(f) {
+		case "early":
+			treeFixEarly = true
+		case "lateput":
+			treeFixLatePut = true
+		}
+	}
+}
+
+func traceCfg(diag string) string {
+	return fmt.Sprintf(traceCfgFmt, tlaBool(treeFixEarly), tlaBool(treeFixLatePut), diag)
+}
 
 // stable keys of the violations this check can report
 const (
@@ -66,9 +90,9 @@ var safetyInvs = []string{"TypeOK", "HandOff", "DoneAtMostOnce", "RejectDoneAtMo
 func tierFor(ctx *vrun.Ctx) tier {
 	if ctx.Thorough {
 		return tier{simScenarios: 2400, batch: 80, drivers: 6, mc: []mcRun{
-			{name: "safety", scenarios: "ScenariosSafetyThorough", timeout: 25 * time.Minute, coverage: true},
+			{name: "safety", scenarios: "ScenariosSafetyThorough", timeout: 40 * time.Minute, coverage: true},
 			{name: "safety-timers", scenarios: "ScenariosTimers", timers: true, pings: 1, timeout: 15 * time.Minute, coverage: true},
-			{name: "liveness", scenarios: "ScenariosLiveThorough", props: []string{"Termination"}, timeout: 25 * time.Minute},
+			{name: "liveness", scenarios: "ScenariosLiveThorough", props: []string{"Termination"}, timeout: 40 * time.Minute},
 			{name: "repaired", scenarios: "ScenariosLiveQuick", fix: true, props: []string{"TerminationStrict"}, timeout: 15 * time.Minute},
 		}}
 	}
@@ -82,20 +106,26 @@ func (m mcRun) cfg() string {
 	var sb strings.Builder
 	fmt.Fprintf(&sb, "SPECIFICATION Spec\nCONSTANTS\n  Senders <- MCSenders\n  Cap = 2\n  Timers = %s\n  MaxPings = %d\n  Scenarios <- %s\n",
 		tlaBool(m.timers), m.pings, m.scenarios)
-	// FixStall is part of the current tree (repaired in /repo by 7c169cbd "fix: peer:
-	// stall handler waits for both the input and the output handler"); the other
-	// two repairs are only switched on for the "repaired" configuration.
-	fmt.Fprintf(&sb, "  FixEarly = %s\n  FixStall = TRUE\n  FixLatePut = %s\n", tlaBool(m.fix), tlaBool(m.fix))
+	// FixStall is part of the current tree (repaired in /repo by 7c169cbd); the
+	// "repaired" configuration switches the remaining repairs on as well.
+	early, late := treeFixEarly || m.fix, treeFixLatePut || m.fix
+	fmt.Fprintf(&sb, "  FixEarly = %s\n  FixStall = TRUE\n  FixLatePut = %s\n", tlaBool(early), tlaBool(late))
 	sb.WriteString("INVARIANTS\n")
 	for _, inv := range safetyInvs {
-		if m.fix && inv == "QueuedBeforeDisconnectSignalled" {
-			inv = "QueuedBeforeDisconnectSignalledStrict"
+		if early && inv == "QueuedBeforeDisconnectSignalled" {
+			inv = "QueuedBeforeDisconnectSignalledStrict" // no excuse left
 		}
 		sb.WriteString("  " + inv + "\n")
+	}
+	if early && late {
+		sb.WriteString("  EveryReturnedSendSignalled\n")
 	}
 	if len(m.props) > 0 {
 		sb.WriteString("PROPERTIES\n")
 		for _, p := range m.props {
+			if late && p == "Termination" {
+				p = "TerminationStrict" // no excuse left
+			}
 			sb.WriteString("  " + p + "\n")
 		}
 	}
@@ -103,7 +133,9 @@ func (m mcRun) cfg() string {
 }
 
 // actions that only exist for the Timers / repair configurations
-var fixActions = map[string]bool{"IhPongEscape": true, "IhRjEscape": true, "PhEscape": true}
+// actions that only exist with a repair switched on
+var lateActions = map[string]bool{"IhRjEscape": true, "QmAfter": true, "IvEscape": true}
+var earlyActions = map[string]bool{"StWaitQuit": true, "StDrain": true}
 
 func runMC(ctx *vrun.Ctx, t tier) error {
 	seenAction := map[string]int64{}
@@ -154,7 +186,7 @@ func runMC(ctx *vrun.Ctx, t tier) error {
 	if audited {
 		var never []string
 		for a, n := range seenAction {
-			if n == 0 && !fixActions[a] {
+			if n == 0 && !(lateActions[a] && !treeFixLatePut) && !(earlyActions[a] && !treeFixEarly) {
 				never = append(never, a)
 			}
 		}
@@ -565,7 +597,7 @@ type batchResult struct {
 
 // validateBatch runs TracePeer over the chained traces (depth-first).
 func validateBatch(ctx *vrun.Ctx, traces []*Trace, diag bool) (*batchResult, string, error) {
-	res, err := tlc.Run(tlc.Opts{SpecDir: ctx.SpecDir("peer"), Module: "TracePeer", CfgText: fmt.Sprintf(traceCfg, tlaBool(diag)),
+	res, err := tlc.Run(tlc.Opts{SpecDir: ctx.SpecDir("peer"), Module: "TracePeer", CfgText: traceCfg(tlaBool(diag)),
 		Files: map[string][]byte{"TraceData.tla": []byte(TraceDataModule(traces))}, Workers: 1, DFS: !diag,
 		Timeout: 20 * time.Minute, Scratch: ctx.Scratch, HeapGB: 3, KeepDir: os.Getenv("VERIF_PEER_KEEP") != ""})
 	if err != nil {
@@ -591,7 +623,7 @@ func validateBatch(ctx *vrun.Ctx, traces []*Trace, diag bool) (*batchResult, str
 // stuckAt returns the index (0-based) of the first event of the trace no
 // explanation of the specification reaches.
 func stuckAt(ctx *vrun.Ctx, tr *Trace) (int, error) {
-	res, err := tlc.Run(tlc.Opts{SpecDir: ctx.SpecDir("peer"), Module: "TracePeer", CfgText: fmt.Sprintf(traceCfg, "TRUE"),
+	res, err := tlc.Run(tlc.Opts{SpecDir: ctx.SpecDir("peer"), Module: "TracePeer", CfgText: traceCfg("TRUE"),
 		Files: map[string][]byte{"TraceData.tla": []byte(TraceDataModule([]*Trace{tr}))}, Workers: 1,
 		Timeout: 20 * time.Minute, Scratch: ctx.Scratch, HeapGB: 3})
 	if err != nil {
